@@ -8,7 +8,7 @@ Ties between the Coq development and the code (every run):
         == de-cythonised geometry.pyx executed with exact Fractions   (all points)
       de-cythonised geometry.pyx executed with floats
         == compiled binary via PolygonFilter.filter                     (all points)
-      floats == exact for points farther than 2^-40 (relative) from every edge;
+      floats == exact for points farther than 2^-47 (relative) from every edge;
   * persistence correspondence: PolygonFilter.save/save_all text and
     PolygonFilter.import_all results (incl. mutated files and id clashes)
     against the character-level model.
@@ -30,27 +30,23 @@ from fractions import Fraction
 from . import common
 
 PROP = "C15"
-RULE = ("geometry: polygons with 3..12 vertices (integer grids up to 7x7 with "
-        "half-integer query points incl. points level with vertices and on the "
-        "lines of horizontal edges; self-intersecting, repeated and closing "
-        "vertices, collinear runs; integer-grid polygons translated by +-2^20..2^40; random "
-        "floats scaled by 10^-6..10^6 independently per axis; offset polygons of size s at "
-        "offset o with |o|/s = 1..1e9, both signs; tiny polygons with coordinates 1e-12..1e-8) x 12..40 query points (bounding-box random, "
-        "vertex-level, near-edge, on-boundary, far outside), each polygon also "
-        "cyclically shifted, reversed, closed and with a doubled vertex; "
-        "exhaustive part: all triangles (thorough: and all quadrilaterals) on "
-        "the 4x4 grid x the 9x9 half-integer grid. persistence: sets of 1..5 "
-        "filters (names with '=', inner/outer blanks, unicode, empty; ids with "
-        "gaps; 17-digit coordinates such as 0.1+0.2) saved with save_all / "
-        "save(append) / one file object, re-imported after clear_all_filters and "
-        "into a registry with clashing ids; mutated .poly texts; chains of 1..3 copy(invert=0/1) "
-        "from inverted/plain, constructed/loaded sources, then saved, re-imported and used as a "
-        "dataset polygon filter; query arrays of mixed dtypes (x int32/int64/uint8/int16 with "
-        "fractional float64 y and the reverse, float32 vs float64, equal dtypes), strided/column/"
-        "1-element layouts, tuples/lists/numpy scalars for point_in_poly, dataset polygons on "
-        "(index, deform) and (frame, area_um), judged on the given numbers. non-trivial: "
-        "at least one point inside and one outside and off the boundary (geometry), "
-        "at least one filter with >= 3 points (persistence); distinct = different case dict")
+RULE = ("geometry: polygons with 1..40 vertices and a 'many' family with 100..2000 (integer grids "
+        "with half-integer query points incl. points level with vertices and on the lines of "
+        "horizontal edges; self-intersecting, repeated/closing vertices, collinear runs; grids "
+        "translated by +-2^20..2^40; floats scaled 10^-6..10^6 per axis; offset polygons |o|/s = "
+        "1..1e9; tiny 1e-12..1e-8) x 12..40 query points (random, vertex-level, near-edge, boundary, "
+        "far), each polygon also shifted, reversed, closed, with a doubled vertex; all triangles "
+        "(thorough: quadrilaterals) on the 4x4 grid x 9x9 half-integer points; long arrays N = 0, 1, "
+        "2^16-1..2^16+1, 10^5 with planted block-edge points and NaN/inf coordinates; mixed dtypes/"
+        "layouts; datasets with two polygon filters whose inverted/points/axes change while attached. "
+        "persistence: sets of 1..12 filters with 0..40 points plus filters of 130..1000 points that "
+        "are not the first (names with '=', inner/outer blanks incl. U+00A0/U+3000/U+0085/U+2028/FF/"
+        "FS, unicode, empty; ids with gaps and >= 10^8; 17-digit coordinates) saved with save_all / "
+        "save(append) / one file object, into fresh or pre-existing files, re-imported into a cleared "
+        "registry, into the saving session or into one with clashing ids, then copy(); direct fileid/"
+        "unique_id loads; mutated .poly texts; chains of 1..3 copy(invert); printed coordinates vs "
+        "rounding intervals. non-trivial: at least one point inside and one outside off the boundary "
+        "(geometry), at least one filter with >= 3 points (persistence); distinct = different case dict")
 TRUSTED_BASE = [
     "PROVED for every polygon and every point off the boundary: result = parity of the "
     "winding number computed from quadrants (no ray), = result for the ray towards -x "
@@ -61,7 +57,7 @@ TRUSTED_BASE = [
     "in the exhaustive grid part and the long-array part",
     "NOT MODELLED: binary64 rounding of (xp[j]-xp[i])*(y-yp[i])/(yp[j]-yp[i])+xp[i]; "
     "coordinates are exact rationals in Coq. Query points closer to an edge than "
-    "2^-40 relative are compared float-vs-binary only, not against the exact model",
+    "2^-47 relative are compared float-vs-binary only, not against the exact model",
     "translator pnpoly_pyx.py (tokeniser + precedence parser for the loop condition, "
     "exact skeleton match of the loop) and decythonize_geometry.py (mechanical removal of "
     "cdef/cimport/typed arguments/&x[0]/casts from geometry.pyx and _pnpoly.pyx; C division "
@@ -235,13 +231,13 @@ def ray_parity(poly, p, d):
 
 
 def near_edge(poly, p):
-    """p is within 2^-40 (relative) of an edge the implementation evaluates"""
+    """p is within 2^-47 (relative) of an edge the implementation evaluates"""
     n = len(poly)
     for i in range(n):
         vi, vj = poly[i], poly[i - 1]
         if (vi[1] <= p[1] < vj[1]) or (vj[1] <= p[1] < vi[1]):
             scale = max(abs(vi[0]), abs(vj[0]), abs(p[0]))
-            if abs(orient(vi, vj, p)) << 40 <= abs(vj[1] - vi[1]) * scale:
+            if abs(orient(vi, vj, p)) << 47 <= abs(vj[1] - vi[1]) * scale:
                 return True
     return False
 
@@ -306,9 +302,24 @@ def impl_pip(poly, p):
 def gen_polygon(rng):
     kind = rng.choice(["grid", "grid", "grid", "float", "float", "star",
                        "selfx", "dup", "collinear", "rect",
-                       "offset", "offset", "tiny", "gridshift", "gridshift"])
+                       "offset", "offset", "tiny", "gridshift", "gridshift", "many"])
     n = rng.choice([3, 3, 4, 4, 5, 6, 7, 8, 10, 12, 12, rng.randint(13, 40),
                     rng.choice([1, 2])])
+    if kind == "many":
+        # contour-like gates: 100..2000 vertices (star-shaped or random walk on a grid)
+        m = rng.choice([100, 131, 256, 500, 1000, 2000])
+        if rng.random() < .5:
+            sc = 10.0 ** rng.randint(-3, 3)
+            return kind, [[sc * (1 + .4 * math.sin(7 * 2 * math.pi * k / m)) * math.cos(2 * math.pi * k / m),
+                           sc * (1 + .4 * math.sin(7 * 2 * math.pi * k / m)) * math.sin(2 * math.pi * k / m)]
+                          for k in range(m)]
+        x, y = 0, 0
+        poly = []
+        for _ in range(m):
+            x += rng.randint(-3, 3)
+            y += rng.randint(-3, 3)
+            poly.append([float(x), float(y)])
+        return kind, poly
     if kind == "gridshift":
         # integer-grid polygon far from the origin (gates on index, frame, time):
         # exact in binary64, small relative to its distance from 0
@@ -542,9 +553,10 @@ def grid_sweep(run, ns):
 # --------------------------------------------------------------------------
 NAME_POOL = ["poly", "gate 1", "a=b", "x = y = z", "=", "café μ", "", "Name = x",
              "[Polygon 00000009]", "point00000000 = 1 2", "True", "中文", "a\tb",
-             "tab\tin=side"]
-BLANK_NAMES = [" lead", "trail ", "  both  ", "\ttab", "nbsp ", " ", "line\nbreak",
-               "cr\rname", "trailing\n"]
+             "tab\tin=side", "form\x0cfeed", "next\x85line", "line\u2028sep", "fs\x1cin",
+             "a\xa0b", "vt\x0bin"]
+BLANK_NAMES = [" lead", "trail ", "  both  ", "\ttab", "nbsp\xa0", " ", "line\nbreak",
+               "cr\rname", "trailing\n", "\u3000wide", "nel\x85", "ls\u2028", "\x1cfs", "ff\x0c"]
 
 
 def gen_coord(rng):
@@ -573,6 +585,14 @@ def gen_persist_case(rng, trigger=None):
             name = None
         return dict(id=i, axes=ax, name=name, inv=rng.choice([0, 1]), pts=pts)
     filters = [one(i) for i in ids[:nf]]
+    if rng.random() < .25:
+        # a filter whose text exceeds the 8 KiB file buffer, preferably not the first
+        big = rng.choice([130, 200, 400, 1000])
+        k = rng.randrange(len(filters)) if len(filters) == 1 else rng.randrange(1, len(filters))
+        t = [2 * math.pi * j / big for j in range(big)]
+        sc = 10.0 ** rng.randint(-3, 3)
+        filters[k]["pts"] = [[sc * (1 + .3 * math.sin(5 * a)) * math.cos(a),
+                              sc * (1 + .3 * math.sin(5 * a)) * math.sin(a)] for a in t]
     if trigger == "blank" or (trigger is None and rng.random() < .12):
         rng.choice(filters)["name"] = rng.choice(BLANK_NAMES)
     case = dict(kind="persist", filters=filters, mode=rng.choice(["save_all", "append", "fobj"]),
@@ -710,6 +730,16 @@ def check_persist_impl(case, scratch):
                         "(taken: %r)" % (newids, taken), "id-renumber", None, True)
             for o, g in zip(orig, got):
                 o["id"] = g.unique_id
+        if got:
+            # import, then copy(): the copy must get an identifier nobody has
+            used = [p.unique_id for p in PolygonFilter.instances]
+            with warnings.catch_warnings():
+                warnings.simplefilter("ignore")
+                cp = got[0].copy(invert=True)
+            if cp.unique_id in used:
+                return ("copy() after import_all got identifier %d which is in use (%r)" %
+                        (cp.unique_id, used), "copy-id", None, True)
+            PolygonFilter.instances = [p for p in PolygonFilter.instances if p is not cp]
         if len(got) != len(orig):
             return ("%d filters saved, %d imported" % (len(orig), len(got)), "count", None, True)
         for o, g, (tp, want) in zip(orig, got, probes):
@@ -1278,7 +1308,7 @@ def bulk_check(run, rng):
     sizes = [0, 1, 2, 65535, 65536, 65537, 100000]
     todo = sizes if run.thorough else [0, 1, rng.choice([65535, 65536]), 65537, 100000]
     for N in todo:
-        n = rng.choice([3, 4, 5, 8, 13, 20])
+        n = rng.choice([3, 4, 5, 8, 13, 20, 60, 400])
         g = rng.choice([3, 6, 8])
         sh = rng.choice([0, 0, 2 ** 20, -2 ** 30])
         poly = [(sh + rng.randint(0, g), rng.randint(0, g)) for _ in range(n)]
@@ -1327,10 +1357,15 @@ def bulk_check(run, rng):
             pf = PolygonFilter(axes=("area_um", "deform"), points=np.array(poly, dtype=float),
                                inverted=bool(inv))
             got = np.asarray(pf.filter(x, y))
-            if got.shape != (N,) or got.dtype != bool:
-                fails.append("N=%d: filter() returns shape %r dtype %s" % (N, got.shape, got.dtype))
+            if got.shape != (N,):
+                fails.append("N=%d: filter() returns shape %r" % (N, got.shape))
                 continue
-            want = np.where(bad, False, par) ^ bool(inv)
+            got = got.astype(bool)
+            if not inv:
+                plain = got
+            # finite points: exact oracle; points with a NaN/inf coordinate: the property
+            # only demands that the inverted filter is the complement of the plain one
+            want = np.where(bad, ~plain if inv else got, par ^ bool(inv))
             cmp_ = (~bnd) | bad
             wrong = cmp_ & (got != want)
             if wrong.any():
@@ -1425,6 +1460,25 @@ def dataset_check(run, rng):
         k = differs(ds.filter.polygon, expect([(jC, 1 - invA)]))
         if fail is None and k is not None:
             fail = "dataset: after removing filter B event %r wrong" % (pts[k],)
+        # the axes of an attached filter change: (area_um, deform) -> (deform, area_um)
+        A.axes = ("deform", "area_um")
+        ds.apply_filter()
+        ptsT = [[p[1], p[0]] for p in pts]
+        jT = exact_judgement(polyC, ptsT, rng)
+        k = differs(ds.filter.polygon, expect([(jT, 1 - invA)]))
+        if fail is None and k is not None:
+            fail = ("dataset: after A.axes was swapped and apply_filter() event %r is classified "
+                    "with the old axes" % (pts[k],))
+        # a vertex moved in place
+        if isinstance(getattr(A, "_points", None), np.ndarray) and A._points.size:
+            A._points = A._points.astype(float)
+            A._points[0, 0] += 3.0
+            polyD = [list(map(float, v)) for v in A.points]
+            jD = exact_judgement(polyD, ptsT, rng)
+            ds.apply_filter()
+            k = differs(ds.filter.polygon, expect([(jD, 1 - invA)]))
+            if fail is None and k is not None:
+                fail = "dataset: after a vertex was moved in place event %r is stale" % (pts[k],)
         PolygonFilter.clear_all_filters()
         run.record_case(case, True, sample=False)
         run.count("dataset:two-filters+mutation")
@@ -1548,6 +1602,9 @@ def run(run):
         for j in r["judge"]:
             run.count("pt:" + ("boundary" if j["bnd"] else "near-edge" if j["near"]
                                else "inside" if j["inside"] else "outside"))
+            if not j["bnd"]:
+                run.count("judged:" + c.get("shape", "?") if not j["near"]
+                          else "skipped-near:" + c.get("shape", "?"))
         if r["fail"] is not None:
             run.oracle_failure(c, r["fail"], None)
     geom = kept
@@ -1557,7 +1614,8 @@ def run(run):
     # cases, the first points only, both predicates.
     INTEGER = ("grid", "selfx", "dup", "collinear", "rect", "hand", "sweep", "gridshift")
     full_idx = [k for k, c in enumerate(geom) if c.get("shape") in INTEGER]
-    float_idx = [k for k, c in enumerate(geom) if c.get("shape") not in INTEGER]
+    float_idx = [k for k, c in enumerate(geom) if c.get("shape") not in INTEGER
+                 and len(c["poly"]) <= 40]
     float_idx = float_idx[:(250 if run.thorough else 45)]
     NPT = 16 if run.thorough else 6
     model = {}
@@ -1591,7 +1649,7 @@ def run(run):
             if bad:
                 run.mismatch(c, r["src_exact"], r["src_float"],
                              what="binary64 evaluation differs from exact evaluation "
-                                  "outside the 2^-40 margin (points %r)" % bad[:3])
+                                  "outside the 2^-47 margin (points %r)" % bad[:3])
                 continue
         if k not in model:
             continue
@@ -1640,6 +1698,16 @@ def run(run):
         run.record_case(c, nontrivial, sample=False)
         run.count("persist:" + c["mode"])
         run.count("persist:filters=%d" % len(c["filters"]))
+        if c.get("same_session"):
+            run.count("persist:same_session")
+        if c.get("pre_filters"):
+            run.count("persist:pre-existing-file")
+        for f in c["filters"]:
+            n = len(f["pts"])
+            run.count("persist:points=" + (str(n) if n <= 2 else "3..12" if n <= 12 else
+                                           "13..40" if n <= 40 else ">=130"))
+            if f["id"] >= 10 ** 8:
+                run.count("persist:id>=1e8")
         if fail is not None:
             run.count("persist-fail:" + kind)
             run.oracle_failure(c, fail, classify_persist(c, kind, detail))
@@ -1665,6 +1733,9 @@ def run(run):
         run.count("direct-load:uid=%s" % ("none" if c["uid"] < 0 else
                                            "clash" if c["uid"] in c["pre"] else "free"))
         denc = r[3][0]
+        if denc[0] == 0:       # compare the filter (incl. its id), not counter/instance list
+            tail = 1 + len(r[3][1][0]) + 1
+            denc, md = denc[:-tail], md[:-tail] if md[0] == 0 else md
         if (md[0] == 0) != (denc[0] == 0) or (denc[0] == 0 and md != denc) or \
                 (denc[0] == 1) != (md[0] == 1):
             run.mismatch(c, md, denc, what="PolygonFilter(filename=, fileid=%d, unique_id=%s)"
@@ -1698,8 +1769,11 @@ def run(run):
         run.count("mutant:result=%d" % enc[0])
         # hand-edited files: the property says nothing about WHICH error a malformed
         # file raises; success results are compared exactly, errors only as "error"
-        if (mi[0] == 0) != (enc[0] == 0) or (enc[0] == 0 and mi != enc):
+        if mi[0] == 0 and enc[0] == 0 and mi != enc:
             run.mismatch(c, mi, enc, what="import_all of a mutated file")
+        elif (mi[0] == 0) != (enc[0] == 0):
+            # how lenient the reader is with hand-edited files is not in the property
+            run.count("mutant:acceptance-differs-from-model")
 
 
     # ---------------- long arrays, non-finite values, dataset level, printed numbers
